@@ -146,8 +146,8 @@ def spec(ctx):
 '''.replace("@CONSTS@", "\n        ".join(const_asserts))]
     hs = [
         Harness("c01_unit_ops", "e1", skeletons=[(i,) for i in range(len(unit_arms))], clause="bare-Unit operators (generated from impl headers)"),
-        Harness("c01_quantity_ops", "e2", skeletons=[(i,) for i in range(len(base_arms))], clause="Quantity x Quantity operators: exponents and exact f32 value"),
-        Harness("c01_mixed_ops", "e2", skeletons=[(i,) for i in range(len(conv_arms))], clause="mixed Quantity/Time/DimensionlessInteger operators == Quantity operator after conversion"),
+        Harness("c01_quantity_ops", "e2", tolerant=False, skeletons=[(i,) for i in range(len(base_arms))], clause="Quantity x Quantity operators: exponents and exact f32 value"),
+        Harness("c01_mixed_ops", "e2", tolerant=False, skeletons=[(i,) for i in range(len(conv_arms))], clause="mixed Quantity/Time/DimensionlessInteger operators == Quantity operator after conversion"),
         Harness("c01_mismatch_panics", "e1", skeletons=[(i,) for i in range(len(panic_arms))], allow_fail=PANIC_DIM,
                 clause="add/sub/ordering with different units panics (marker unreachable), every form"),
         Harness("c01_abs_ord_eq", "e1", clause="abs, ordering == f32 ordering under equal units (no panic), equality, eq helpers"),
